@@ -346,6 +346,25 @@ def gen_cache(facts):
                 continue
         if mode != 'unknown':
             break
+    # … and how the file name of a template that has one enters the hashed bytes (it is compiled into the module)
+    flayout = 'unknown'
+    try:
+        tf = PageTemplate('x', filename='/d/page.pt')
+        wantf = BaseTemplate.digest(tf, 'body', tuple(sorted(bd)))
+        stem, _, hexf = wantf.rpartition('-')
+        fn = b'/d/page.pt'
+        flayouts = {'not-hashed': [cname + b'\0', b'body'], 'class-nul-file-nul-body': [cname + b'\0', fn + b'\0', b'body'],
+                    'class-nul-body-nul-file': [cname + b'\0', b'body', b'\0' + fn], 'class-nul-file-body': [cname + b'\0', fn, b'body']}
+        for lname, parts in flayouts.items():
+            sha = get_pkg_digest()
+            for part in parts:
+                sha.update(part)
+            if sha.hexdigest() == hexf and stem == '/d/page':
+                flayout = lname
+                break
+    except Exception:
+        pass
+    facts['digest_file_layout'] = flayout
     facts['digest_body_errors'] = mode
     facts['digest_layout'] = layout
     facts['cache_unsound_value_pairs'] = unsound
@@ -361,7 +380,9 @@ def gen_cache(facts):
             '/-- the `errors` mode of `str.encode` that reproduces `digest` on a body with a lone surrogate (observed) -/',
             'def digestBodyErrors : String := ' + lean_str(mode),
             '/-- how `digest` lays out the class name and the source in the hashed bytes (observed by recomputing the digest) -/',
-            'def digestLayout : String := ' + lean_str(layout)]
+            'def digestLayout : String := ' + lean_str(layout),
+            '/-- … and the file name of a template that has one (observed the same way; the module name is the path without extension + "-" + digest) -/',
+            'def digestFileLayout : String := ' + lean_str(flayout)]
 
 
 def gen_ties(facts):
